@@ -26,7 +26,9 @@ META = {
             "mode). C01_refuted_const_subexpression shows an excluded cell is a real divergence. go_eval / go_exec are compared with the "
             "real Go toolchain, the VM model with the real ego binary in three modes, and compile_stmt (if/else included) instruction "
             "for instruction with the real compiler's dumped bytecode (line markers and the fetch of fmt.Println canonicalised) on "
-            "every run; the wider documented subset is compared Ego-vs-Go on generated programs. partial: loops, calls, strings/bools, block-scoped "
+            "every run; the three-clause for loop is modelled (go_exec_l, compile_l with the per-iteration scope copy through PushScope/PopScope) "
+            "and tied the same three ways, not proved; the wider documented subset is compared Ego-vs-Go on generated programs. "
+            "partial: the loop's simulation proof, break/continue, calls, strings/bools, block-scoped "
             "declarations and everything beyond are observed by the differential only",
     "note": "Trusted: Coq kernel; the instruction semantics of Opt/Model.v and Arith/Model.v (tied by C02/C03); GoSub.compile as a "
             "hand transliteration of the expression compiler; lib/gosub_wide.py (program generator, batch runner, comparison); the Go "
@@ -294,10 +296,45 @@ def gen_stmt_prog(rng, idx, kind=None):
     return p
 
 
+def gen_loop_prog(rng, idx, kind=None):
+    """core statements, then `for i := <var>; i < <var> + N; i++ { body }` (or the downward form), then core statements; at most
+    3 iterations, no wrap-around of the loop variable in any kind"""
+    gk, ck, lo, hi = kind or rng.choice(KINDS)
+    vals = [rng.randint(3, 9), rng.randint(3, 9), rng.choice([0, 1, 2, 7, min(hi, 2 ** 31 - 1)])]
+    names = list(VARS)
+    l1, t1, _ = gen_stmts(rng, names, hi, rng.randint(1, 2), [], "\t", False)
+    start = rng.choice(["a", "b"])
+    n = rng.randint(1, 3)
+    up = rng.random() < 0.5
+    lb, tb, _ = gen_stmts(rng, ["c"], hi, rng.randint(1, 2), [], "\t\t", False)      # the body assigns only c
+    op = rng.choice(list(BOPS))
+    lb.append("\t\tc %s= i" % op)
+    tb = "(SSeq %s (SOpAssign %s %s (EVar %s)))" % (tb, BOPS[op], vf.vrunes("c"), vf.vrunes("i"))
+    if rng.random() < 0.5:
+        lb.append("\t\tfmt.Println(i)")
+        tb = "(SSeq %s (SPrint (EVar %s)))" % (tb, vf.vrunes("i"))
+    cmpop = rng.choice(["<", "!="] if up else [">", "!="])      # <= / >= can loop forever when the bound is the kind's limit
+    head = "\tfor i := %s; i %s (%s %s %d); i%s {" % (start, cmpop, start, "+" if up else "-", n, "++" if up else "--")
+    tfor = "(LFor %s (EVar %s) %s (EVar %s) (EBin %s (EVar %s) (EConst %d)) %s %s)" % (
+        vf.vrunes("i"), vf.vrunes(start), CMPS[cmpop], vf.vrunes("i"), "BAdd" if up else "BSub", vf.vrunes(start), n,
+        "true" if up else "false", tb)
+    l2, t2, _ = gen_stmts(rng, names, hi, rng.randint(1, 2), [], "\t", False)
+    tail = ["\tfmt.Println(%s)" % v for v in names]
+    for v in names:
+        t2 = "(SSeq %s (SPrint (EVar %s)))" % (t2, vf.vrunes(v))
+    decl = ["\tvar %s %s = %s" % (v, gk, z) for v, z in zip(VARS, vals)]
+    text = "func prog@() {\n%s\n}\n" % "\n".join(decl + l1 + [head] + lb + ["\t}"] + l2 + tail)
+    q = gw.from_template(text, idx)
+    q["stmt"] = {"kind": gk, "ck": ck, "coq": "(LSeq (LBase %s) (LSeq %s (LBase %s)))" % (t1, tfor, t2),
+                 "env": "[" + "; ".join("(%s, (%d))" % (vf.vrunes(v), z) for v, z in zip(VARS, vals)) + "]"}
+    return q
+
+
 DUMP_OPS = {"Add": "OAdd", "Sub": "OSub", "Mul": "OMul", "Div": "ODiv", "LT": "LessThan", "LTEQ": "LessThanOrEqual",
             "GT": "GreaterThan", "GTEQ": "GreaterThanOrEqual", "Equal": "Equal", "NotEqual": "NotEqual", "Push": "Push",
             "Load": "Load", "Store": "Store", "SymbolCreate": "SymbolCreate", "DropToMarker": "DropToMarker",
-            "Branch": "Branch", "BranchFalse": "BranchFalse", "BranchTrue": "BranchTrue"}
+            "Branch": "Branch", "BranchFalse": "BranchFalse", "BranchTrue": "BranchTrue",
+            "PushScope": "PushScope", "PopScope": "PopScope"}
 
 
 def canonical_main(dump):
@@ -341,6 +378,8 @@ def canonical_main(dump):
             o = "OV (VInt Int %d)" % newidx[t]
         elif operand == "nil":
             o = "ONil"
+        elif operand.startswith("i:") and op == "PushScope":
+            o = "OV (VInt Int %s)" % operand[2:]
         elif operand.startswith("s:"):
             o = "OV (VStr %s)" % vf.vrunes(json.loads(operand[2:]))
         elif operand.startswith("c(i:"):
@@ -404,9 +443,11 @@ def run(ck):
             core, wide = [], [{"id": rp["id"], "go_funcs": rp["go_funcs"], "features": rp.get("features", [])}]
     nst = 10 if quick else 120
     stm = [gen_stmt_prog(ck.rng, "s%d" % i, kind=KINDS[i % len(KINDS)]) for i in range(nst)] if not ck.replay_file else []
-    for q in stm:
+    nlp = 6 if quick else 60
+    lps = [gen_loop_prog(ck.rng, "l%d" % i, kind=KINDS[(i * 2 + 1) % len(KINDS)]) for i in range(nlp)] if not ck.replay_file else []
+    for q in stm + lps:
         q["features"] = ["core-statements"]
-    wide = stm + wide
+    wide = stm + lps + wide
     SKIP_KNOWN = {"cli:unhandled-panic-trace-on-stdout", "map-two-value-missing-key-yields-nil"}   # outside the property text
     known = [(e, p) for e, p in gw.known_as_progs() if e["signature"] not in SKIP_KNOWN] if not ck.replay_file else []
     progs = core + wide + [cc] + [p for _, p in known]
@@ -498,14 +539,15 @@ def run(ck):
                     ck.violation("corr-" + key, "%s disagree on %s kind %s vars %s" % (what, p["core"]["go"], p["core"]["kind"], p["core"]["vals"]),
                                  replay={"id": p["id"], "go_funcs": p["go_funcs"]}, found_input=False)
     # ---- core statements: go_exec vs real Go, VM model vs real Ego (3 modes), compile_stmt vs the real compiler's bytecode
-    if coq_ok and stm:
+    allst = stm + lps
+    if coq_ok and allst:
         okh, hbin = vf.go_test_build(ck.work, "internal/language/compiler", {
             "internal/language/compiler/zz_verif_c10_test.go": os.path.join(vf.HARNESS, "C10", "c10_test.go"),
             "internal/language/bytecode/zz_verif_dump.go": os.path.join(vf.HARNESS, "C10", "dump.go")}, "c01dump.test")
         dumps = {}
         if okh:
             inp, outp = os.path.join(ck.work, "din.json"), os.path.join(ck.work, "dout.json")
-            json.dump([{"id": i, "src": gw.ego_source(q)} for i, q in enumerate(stm)], open(inp, "w"))
+            json.dump([{"id": i, "src": gw.ego_source(q)} for i, q in enumerate(allst)], open(inp, "w"))
             rc, log = vf.run_bin(hbin, "^TestVerifC10$", {"VERIF_IN": inp, "VERIF_OUT": outp})
             if rc == 0 and os.path.exists(outp):
                 for r in json.load(open(outp)):
@@ -522,43 +564,46 @@ def run(ck):
 
             def enc(text, abort):
                 try:
-                    return "[" + "; ".join(["(%d)" % int(x) for x in text.split()] + ["1" if abort else "0"]) + "]"
+                    return "[" + "; ".join(["(%d)" % int(x) for x in text.split()] + (["1"] if abort else ["0", "0"])) + "]"
                 except ValueError:
                     return "[99]"
             rows = []
-            for i, q in enumerate(stm):
+            for i, q in enumerate(allst):
                 c = q["stmt"]
                 code = canonical_main(dumps.get(i, ""))
                 g = by[q["id"]]
                 e = [modes[mm][q["id"]] for mm in ("dynamic", "strict", "relaxed")]
-                rows.append("(%s, %s, %s, %s, %s, %s, %s, %s)" % (
-                    c["ck"], c["env"], c["coq"], ("Some %s" % code) if code else "None", enc(g["go_out"], g["go_abort"]),
+                isbase = i < len(stm)
+                rows.append("(%s, %s, %s, %s, %s, %s, %s, %s, %s)" % (
+                    c["ck"], c["env"], ("(LBase %s)" % c["coq"]) if isbase else c["coq"], ("Some %s" % c["coq"]) if isbase else "None",
+                    ("Some %s" % code) if code else "None", enc(g["go_out"], g["go_abort"]),
                     enc(e[0]["ego_out"], e[0]["ego_abort"]), enc(e[1]["ego_out"], e[1]["ego_abort"]), enc(e[2]["ego_out"], e[2]["ego_abort"])))
             pre = "\n".join([
                 "From Coq Require Import List ZArith NArith Bool.", "From Common Require Import Base.", "From Arith Require Import Model.",
-                "From Opt Require Import Model.", "From GoSub Require Import Model Stmt.", "Import ListNotations.", "Open Scope Z_scope.",
-                "Definition row : Type := (ikind * env * stmt * option (list instr) * list Z * list Z * list Z * list Z)%type.",
+                "From Opt Require Import Model.", "From GoSub Require Import Model Stmt Loop.", "Import ListNotations.", "Open Scope Z_scope.",
+                "Definition row : Type := (ikind * env * lstmt * option stmt * option (list instr) * list Z * list Z * list Z * list Z)%type.",
                 "Fixpoint zl_eqb (a b : list Z) : bool := match a, b with [], [] => true | x :: r, y :: t => (x =? y) && zl_eqb r t | _, _ => false end.",
                 "Fixpoint il_eqb (a b : list instr) : bool := match a, b with [], [] => true | x :: r, y :: t => opcode_eqb (fst x) (fst y) && operand_eqb (snd x) (snd y) && il_eqb r t | _, _ => false end.",
                 "Definition cases : list row := [", ";\n".join(rows) + "].",
                 "Fixpoint idx (f : row -> bool) (i : Z) (l : list row) : list Z := match l with [] => [] | x :: r => (if f x then [i] else []) ++ idx f (i + 1) r end."])
             okc, out = vf.coq_eval(GROUP, ck.work, "stcases", pre, {
-                "go": "idx (fun '(k, en, p, c, g, d, s, r) => negb (zl_eqb (go_result k en p) g)) 0 cases",
-                "dyn": "idx (fun '(k, en, p, c, g, d, s, r) => negb (zl_eqb (vm_exec Dynamic k en p) d)) 0 cases",
-                "str": "idx (fun '(k, en, p, c, g, d, s, r) => negb (zl_eqb (vm_exec Strict k en p) s)) 0 cases",
-                "rel": "idx (fun '(k, en, p, c, g, d, s, r) => negb (zl_eqb (vm_exec Relaxed k en p) r)) 0 cases",
-                "code": "idx (fun '(k, en, p, c, g, d, s, r) => match c with Some rc => negb (il_eqb (compile_stmt 0 p) rc) | None => false end) 0 cases",
-                "nocode": "idx (fun '(k, en, p, c, g, d, s, r) => match c with Some _ => false | None => true end) 0 cases",
-                "guard": "idx (fun '(k, en, p, c, g, d, s, r) => negb (guarded k en p)) 0 cases"}, extra_q=XQ)
+                "go": "idx (fun '(k, en, p, q, c, g, d, s, r) => negb (zl_eqb (go_result_l k 300 en p) g)) 0 cases",
+                "dyn": "idx (fun '(k, en, p, q, c, g, d, s, r) => negb (zl_eqb (vm_exec_l Dynamic k 300 en p) d)) 0 cases",
+                "str": "idx (fun '(k, en, p, q, c, g, d, s, r) => negb (zl_eqb (vm_exec_l Strict k 300 en p) s)) 0 cases",
+                "rel": "idx (fun '(k, en, p, q, c, g, d, s, r) => negb (zl_eqb (vm_exec_l Relaxed k 300 en p) r)) 0 cases",
+                "code": "idx (fun '(k, en, p, q, c, g, d, s, r) => match c with Some rc => negb (il_eqb (compile_l 0 p) rc) | None => false end) 0 cases",
+                "nocode": "idx (fun '(k, en, p, q, c, g, d, s, r) => match c with Some _ => false | None => true end) 0 cases",
+                "guard": "idx (fun '(k, en, p, q, c, g, d, s, r) => match q with Some b => negb (guarded k en b) | None => false end) 0 cases"}, extra_q=XQ)
             if not okc:
                 ck.violation("correspondence-eval", "statement model evaluation failed:\n" + str(out)[-1500:], replay={"log": str(out)[-3000:]},
                              found_input=False)
             else:
                 ck.cov["stmt_programs"] = len(stm)
-                ck.cov["stmt_bytecode_compared"] = len(stm) - len(out["nocode"])
-                if len(out["nocode"]) * 5 > len(stm):
+                ck.cov["loop_programs"] = len(lps)
+                ck.cov["stmt_bytecode_compared"] = len(allst) - len(out["nocode"])
+                if len(out["nocode"]) * 5 > len(allst):
                     ck.violation("stmt-code-uncompared", "%d of %d statement programs compile to instructions outside the modelled set" % (
-                        len(out["nocode"]), len(stm)), replay={"ids": out["nocode"]}, found_input=False)
+                        len(out["nocode"]), len(allst)), replay={"ids": out["nocode"]}, found_input=False)
                 ck.cov["input_distribution"]["stmt_outside_guard"] = len(out["guard"])
                 already = any(v["signature"].startswith("go-divergence") for v in ck.viol)
                 for key, what in (("go", "go_exec vs the real Go toolchain"), ("dyn", "VM model (compile_stmt) vs ego --types dynamic"),
@@ -568,7 +613,7 @@ def run(ck):
                     for i in out[key][:2]:
                         if already and key != "code":
                             break
-                        q = stm[i]
+                        q = allst[i]
                         ck.violation("stmt-" + key, "%s disagree on\n%s" % (what, gw.ego_source(q)),
                                      replay={"id": q["id"], "go_funcs": q["go_funcs"], "features": q["features"]}, found_input=False)
     elif getattr(ck, "coq_broken", None) and not ck.viol:
